@@ -120,6 +120,28 @@ Theorem C18_all_rescalings_identical : forall s r,
    @py_rad_solver_solve_main_rhoend_14 ArithR s r; @py_rad_solver_solve_main_rhoend_15 ArithR s r] = repeat f 14.
 Proof. intros. reflexivity. Qed.
 
+(* the hypothesis 0 < tau <= 1 of the decrease update: tau is 1.0, or min(<measure>, 1.0) followed by the reset
+   `if not tau > 0.0: tau = 1.0`, and nothing else writes tau before the radius update reads it *)
+Definition tau_writes : list asite := filter (fun a => streq (a_func a) "solve_main" && streq (a_name a) "tau") T_assigns.
+Definition tau_writes_ok : bool :=
+  forallb (fun a => streq (a_op a) "=" && (streq (a_value a) "1.0" || streq (a_value a) "min(criticality_measure / (LA.norm(gopt) + lh), 1.0)")) tau_writes &&
+  (* the positivity reset exists and comes after every other write ... *)
+  existsb (fun g => streq (a_value g) "1.0" && has_guard (a_guards g) true "not tau > 0.0" &&
+                    forallb (fun a => Z.leb (a_line a) (a_line g)) tau_writes &&
+                    (* ... and before the radius writes that divide by tau *)
+                    forallb (fun w => Z.ltb (a_line g) (a_line w))
+                            (filter (fun w => streq (a_func w) "solve_main" && streq (a_name w) "delta" &&
+                                              match index 0 "/ tau" (a_value w) with Some _ => true | None => false end) T_assigns)) tau_writes &&
+  Z.eqb (Z.of_nat (List.length (filter (fun w => streq (a_func w) "solve_main" && streq (a_name w) "delta" &&
+                                               match index 0 "/ tau" (a_value w) with Some _ => true | None => false end) T_assigns))) 2.
+Theorem C18_tau_is_written_only_as_a_positive_fraction : tau_writes_ok = true.
+Proof. vm_compute. reflexivity. Qed.
+Local Open Scope R_scope.
+(* what those writes produce, over the reals: min(c, 1) reset to 1 when not positive lies in (0, 1] for every c *)
+Lemma C18_tau_in_range : forall c : R, let t := Rmin c 1 in let t' := if Rlt_bool 0 t then t else 1 in 0 < t' <= 1.
+Proof.
+  intros c. cbv zeta. case Rlt_bool_spec; intros H; [|lra]. split; [exact H|apply Rmin_r].
+Qed.
 (* a parameter value outside the hypothesis breaks the lemma: with tau small the decrease update exceeds the cap *)
 Example C18_tau_hypothesis_needed : exists delta dnorm gd tau rho, 0 < rho <= delta /\ delta <= cap /\ 0 <= dnorm <= delta /\ 0 < gd < 1 /\ 0 < tau <= 1 /\
   ~ (snap (@py_rad_solver_solve_main_delta_2 ArithR delta dnorm gd tau) rho <= cap).
